@@ -38,6 +38,7 @@ type Conn struct {
 
 	lineLimitReader *lineLimitReader
 	bdatPipe        *io.PipeWriter
+	bdatStart       func()           // starts the delivery of a chunked message, nil once started
 	bdatStatus      *statusCollector // used for BDAT on LMTP
 	dataResult      chan error
 	bytesReceived   int64 // counts total size of chunks when BDAT is used
@@ -176,6 +177,7 @@ func (c *Conn) Close() error {
 	if c.bdatPipe != nil {
 		c.bdatPipe.CloseWithError(ErrDataReset)
 		c.bdatPipe = nil
+		c.bdatStart = nil
 	}
 
 	if c.session != nil {
@@ -1024,40 +1026,21 @@ func (c *Conn) handleBdat(arg string) {
 		status := c.bdatStatus
 		recipients := c.recipients
 
-		go func() {
-			defer func() {
-				if err := recover(); err != nil {
-					c.handlePanic(err, status)
-
-					dataResult <- errPanic
-					r.CloseWithError(errPanic)
-				}
-			}()
-
-			var err error
-			if !c.server.LMTP {
-				err = session.Data(r)
-			} else {
-				lmtpSession, ok := session.(LMTPSession)
-				if !ok {
-					err = session.Data(r)
-					for _, rcpt := range recipients {
-						status.SetStatus(rcpt, err)
-					}
-				} else {
-					err = lmtpSession.LMTPData(r, status)
-				}
-			}
-
-			dataResult <- err
-			r.CloseWithError(err)
-		}()
+		// The backend is only called once there is something to hand over:
+		// the first octet of the message or its end. From then on the
+		// command loop continues only after Data has begun (the pipe write
+		// waits for the backend to read), so a transfer that is aborted
+		// before that never calls into a session that has been reset or
+		// logged out in the meantime.
+		c.bdatStart = func() {
+			go c.deliverBdat(r, session, status, recipients, dataResult)
+		}
 	}
 
 	c.lineLimitReader.setLimit(0)
 
 	chunk := &io.LimitedReader{R: c.text.R, N: int64(size)}
-	_, err = io.Copy(c.bdatPipe, chunk)
+	_, err = io.Copy(bdatWriter{c, c.bdatPipe}, chunk)
 	if err == nil && chunk.N > 0 {
 		// io.Copy does not report EOF: the connection ended inside the
 		// chunk, the message is incomplete.
@@ -1087,6 +1070,7 @@ func (c *Conn) handleBdat(arg string) {
 	if last {
 		c.lineLimitReader.setLimit(c.server.MaxLineLength)
 
+		c.startBdat()
 		c.bdatPipe.Close()
 
 		err := <-c.dataResult
@@ -1117,6 +1101,61 @@ func (c *Conn) handleBdat(arg string) {
 // ErrDataReset is returned by Reader pased to Data function if client does not
 // send another BDAT command and instead closes connection or issues RSET command.
 var ErrDataReset = errors.New("smtp: message transmission aborted")
+
+// deliverBdat hands a chunked message to the backend. It runs in its own
+// goroutine and may outlive the transaction, so it must not look at the
+// connection's fields: it gets its own copies.
+func (c *Conn) deliverBdat(r *io.PipeReader, session Session, status *statusCollector, recipients []string, dataResult chan error) {
+	defer func() {
+		if err := recover(); err != nil {
+			c.handlePanic(err, status)
+
+			dataResult <- errPanic
+			r.CloseWithError(errPanic)
+		}
+	}()
+
+	var err error
+	if !c.server.LMTP {
+		err = session.Data(r)
+	} else {
+		lmtpSession, ok := session.(LMTPSession)
+		if !ok {
+			err = session.Data(r)
+			for _, rcpt := range recipients {
+				status.SetStatus(rcpt, err)
+			}
+		} else {
+			err = lmtpSession.LMTPData(r, status)
+		}
+	}
+
+	dataResult <- err
+	r.CloseWithError(err)
+}
+
+// bdatWriter writes chunk octets to the delivery pipe, starting the delivery
+// with the first of them.
+type bdatWriter struct {
+	c *Conn
+	w *io.PipeWriter
+}
+
+func (w bdatWriter) Write(b []byte) (int, error) {
+	w.c.startBdat()
+	return w.w.Write(b)
+}
+
+func (c *Conn) startBdat() {
+	c.locker.Lock()
+	start := c.bdatStart
+	c.bdatStart = nil
+	c.locker.Unlock()
+
+	if start != nil {
+		start()
+	}
+}
 
 // discardChunk consumes the payload of a refused BDAT command.
 func (c *Conn) discardChunk(size uint64) {
@@ -1352,6 +1391,7 @@ func (c *Conn) reset() {
 	if c.bdatPipe != nil {
 		c.bdatPipe.CloseWithError(ErrDataReset)
 		c.bdatPipe = nil
+		c.bdatStart = nil
 	}
 	c.bdatStatus = nil
 	c.bytesReceived = 0
